@@ -815,6 +815,9 @@ class Interp:
                 yield s, itv
                 continue
             items = self.concrete_items(s, itv)
+            if items is None and kind == 'list' and not (isinstance(itv, SV) and hasattr(itv.ty, 'comprehension')):
+                yield from self._filter_comp(node, s, itv)
+                continue
             if items is None:
                 if isinstance(itv, SV) and hasattr(itv.ty, 'comprehension'):
                     yield from itv.ty.comprehension(self, s, itv, node)
@@ -849,6 +852,51 @@ class Interp:
                         yield from go(i + 1, s1, acc)
 
             yield from go(0, s, [])
+
+    def _filter_comp(self, node, st, itv):
+        """[elt for target in IT if cond]: the sub-sequence of IT's images that satisfy cond, in order.
+        elt and cond are evaluated once for a generic index (they must be pure and non-forking)."""
+        from . import ops
+        gen = node.generators[0]
+        it = ops.iterspec(self, st, itv)
+        if it.n is None:
+            raise Unsupported('unbounded comprehension source')
+        for a in it.assumptions:
+            st.assume(a)
+        i = z3.Int(sym.fresh_name('fi'))
+        saved = st.cur
+        st.push_frame(saved)
+        self.assign_target(st, gen.target, it.elem(i))
+        cond = z3.BoolVal(True)
+        npc = len(st.pc)
+        for c in gen.ifs:
+            r = list(self.ev(c, st))
+            if len(r) != 1 or isinstance(r[0][1], Raised):
+                raise Unsupported('comprehension condition forks')
+            cond = z3.And(cond, self.truth(st, r[0][1]))
+        r = list(self.ev(node.elt, st))
+        if len(r) != 1 or isinstance(r[0][1], Raised) or not isinstance(r[0][1], SV) or len(st.pc) != npc:
+            raise Unsupported('comprehension element forks / is not symbolic')
+        elt = r[0][1]
+        st.cur = saved
+        f_elt = lambda k: z3.substitute(elt.z, (i, k))
+        f_cond = lambda k: z3.substitute(cond, (i, k))
+        res = ops.new_heap(st, sym.ListC(elt.ty))
+        lc = sym.ListC(elt.ty)
+        m = z3.Int(sym.fresh_name('flen'))
+        arr = z3.Const(sym.fresh_name('filtered'), z3.ArraySort(z3.IntSort(), elt.ty.sort()))
+        idx = z3.Function(sym.fresh_name('fidx'), z3.IntSort(), z3.IntSort())
+        j, j2 = z3.Ints(f'{sym.fresh_name("j")} {sym.fresh_name("j2")}')
+        st.assume(z3.And(0 <= m, m <= it.n))
+        st.assume(z3.ForAll([j], z3.Implies(z3.And(0 <= j, j < m), z3.And(
+            0 <= idx(j), idx(j) < it.n, z3.Select(arr, j) == f_elt(idx(j)), f_cond(idx(j))))))
+        st.assume(z3.ForAll([j, j2], z3.Implies(z3.And(0 <= j, j < j2, j2 < m), idx(j) < idx(j2))))
+        finv = z3.Function(sym.fresh_name('finv'), z3.IntSort(), z3.IntSort())
+        st.assume(z3.ForAll([i], z3.Implies(z3.And(0 <= i, i < it.n, cond), z3.And(0 <= finv(i), finv(i) < m, idx(finv(i)) == i))))
+        st.heap.write(lc, 'arr', res.z, arr)
+        st.heap.write(lc, 'len', res.z, m)
+        st.emit('filter_comp', result=res, idx=idx, finv=finv, cond=f_cond, elt=f_elt, n=it.n)
+        yield st, res
 
     def _union_comp(self, node, st):
         """{y for t in IT for y in E(t)}  ->  the union of elems(E(elem(k))) over k < n"""
@@ -1482,7 +1530,16 @@ class Interp:
         from . import source
         self.loop_nodes = {**source.loops_in(fn_node), **self.loop_nodes}
         body = fn_node.body
-        if callable(stmt):
+        if isinstance(stmt, tuple):
+            start, end = stmt
+            i0 = [i for i, s_ in enumerate(body) if start(s_)]
+            if not i0:
+                raise Unsupported('region start statement not found')
+            i1 = [i for i, s_ in enumerate(body) if i > i0[0] and end(s_)]
+            if not i1:
+                raise Unsupported('region end statement not found')
+            body = body[i0[0]:i1[0]]
+        elif callable(stmt):
             # region: from the first top-level statement satisfying the predicate to the end of the body
             idx = [i for i, s_ in enumerate(body) if stmt(s_)]
             if not idx:
